@@ -82,13 +82,28 @@ theorem unpackMsg_ty (S : Schema) (fuel t : Nat) (b : Bytes) (m : Msg) (h : unpa
     · cases h
     · rw [parseAll_ty S fuel _ _ _ _ h]; rfl
 
-/-- a message some parse with this much fuel returned -/
-def ParsedBy (S : Schema) (fuel : Nat) (m : Msg) : Prop := ∃ fuel' b, fuel = fuel' + 1 ∧ unpackMsg S fuel' m.ty b = some m
+theorem mergeMsg_ty (S : Schema) (fuel : Nat) (e l r : Msg) (h : mergeMsg S fuel e l = some r) : r.ty = l.ty := by
+  cases fuel with
+  | zero => simp [mergeMsg] at h
+  | succ fuel =>
+    obtain ⟨ety, es, eu⟩ := e
+    obtain ⟨ty, ls, lu⟩ := l
+    simp only [mergeMsg, Option.map_eq_some_iff] at h
+    obtain ⟨ls', _, rfl⟩ := h
+    rfl
 
-/-- what `parse_required_member` stores when it does not merge -/
-theorem parseRequired_shape (S : Schema) (fuel : Nat) (f : FieldDesc) (sm : Scanned) (old : Val) (mc : Bool) (v : Val)
-    (hnm : mc = false ∨ f.type ≠ .message) (h : parseRequired S fuel f sm old mc = some v) :
-    ShapeElemP (ParsedBy S fuel) f v := by
+/-- what the induction supplies about nested messages: `P` holds of what a nested parse returns and is kept by
+    `merge_messages` -/
+structure NestOK (P : Msg → Prop) (S : Schema) (fuel : Nat) : Prop where
+  sub : ∀ fuel' t b m', fuel = fuel' + 1 → unpackMsg S fuel' t b = some m' → P m'
+  merge : ∀ fuel' e l r, fuel = fuel' + 1 → P e → P l → e.ty = l.ty → mergeMsg S (fuel' + 1) e l = some r → P r
+
+/-- what `parse_required_member` stores -/
+theorem parseRequired_shape (P : Msg → Prop) (S : Schema) (fuel : Nat) (hN : NestOK P S fuel) (f : FieldDesc) (sm : Scanned)
+    (old : Val) (mc : Bool) (v : Val)
+    (hold : mc = true → ∀ om, old = .msg (some om) → P om ∧ om.ty = f.sub)
+    (h : parseRequired S fuel f sm old mc = some v) :
+    ShapeElemP P f v := by
   unfold parseRequired at h
   split at h
   · cases h
@@ -113,22 +128,39 @@ theorem parseRequired_shape (S : Schema) (fuel : Nat) (f : FieldDesc) (sm : Scan
       | zero => cases h
       | succ fuel' =>
         simp only at h
-        have hmc : mc = false := by
-          rcases hnm with h1 | h1
-          · exact h1
-          · exact absurd hft h1
-        subst hmc
-        have h' : (unpackMsg S fuel' f.sub (sm.data.drop sm.prefLen)).map (fun m => Val.msg (some m)) = some v := by
-          cases old with
-          | msg om => cases om <;> simpa using h
-          | _ => simpa using h
-        simp only [Option.map_eq_some_iff] at h'
-        obtain ⟨m', hm', rfl⟩ := h'
-        have hty := unpackMsg_ty S fuel' f.sub _ m' hm'
-        refine ⟨⟨hft, hty⟩, ?_⟩
-        intro m'' he
-        cases he
-        exact ⟨fuel', _, rfl, by rw [hty]; exact hm'⟩
+        -- the two ways the value is produced
+        have plain : (unpackMsg S fuel' f.sub (sm.data.drop sm.prefLen)).map (fun m => Val.msg (some m)) = some v →
+            ShapeElemP P f v := by
+          intro h'
+          simp only [Option.map_eq_some_iff] at h'
+          obtain ⟨m', hm', rfl⟩ := h'
+          have hty := unpackMsg_ty S fuel' f.sub _ m' hm'
+          refine ⟨⟨hft, hty⟩, ?_⟩
+          intro m'' he
+          cases he
+          exact hN.sub fuel' _ _ _ rfl hm'
+        cases old with
+        | msg oom =>
+          cases oom with
+          | none => exact plain (by simpa using h)
+          | some om =>
+            cases mc with
+            | false => exact plain (by simpa using h)
+            | true =>
+              simp only at h
+              cases hsub : unpackMsg S fuel' f.sub (sm.data.drop sm.prefLen) with
+              | none => simp [hsub] at h
+              | some sm' =>
+                simp only [hsub, Option.map_eq_some_iff] at h
+                obtain ⟨r, hr, rfl⟩ := h
+                obtain ⟨hPo, hoty⟩ := hold rfl om rfl
+                have hty := unpackMsg_ty S fuel' f.sub _ sm' hsub
+                have hrty := mergeMsg_ty S _ om sm' r hr
+                refine ⟨⟨hft, by rw [hrty, hty]⟩, ?_⟩
+                intro m'' he
+                cases he
+                exact hN.merge fuel' om sm' _ rfl hPo (hN.sub fuel' _ _ _ rfl hsub) (by rw [hoty, hty]) hr
+        | _ => exact plain (by simpa using h)
     | _ =>
       simp only [hft, Option.some.injEq] at h
       subst h
@@ -143,11 +175,9 @@ theorem parseRequired_shape (S : Schema) (fuel : Nat) (f : FieldDesc) (sm : Scan
 def Touched (P : Msg → Prop) (f : FieldDesc) (s : Slot) : Prop :=
   ∃ q v, s = .one q v ∧ ShapeElemP P f v ∧ q = (if f.hasQ then 1 else 0)
 
-/-- what the schema must look like for this part: oneof members are optional / implicit, and message-typed fields are
-    repeated (so that `parse_required_member` never merges) -/
+/-- what the schema must look like for this part: oneof members are optional / implicit -/
 structure NoMerge (fields : List FieldDesc) : Prop where
   oneof : OneofLabelsOK fields
-  msgRep : ∀ f ∈ fields, f.type = .message → f.label = .repeated ∧ f.group = none
 
 structure PInv (P : Msg → Prop) (g : Bool) (cs : Nat → Nat) (fields : List FieldDesc) (seen : Nat → Prop)
     (slots : List Slot) : Prop where
@@ -238,13 +268,23 @@ theorem parsePacked_ok (t : PType) (payload : Bytes) (vs : List Val) (h : parseP
     | exact ⟨by simp, by simp, by simp, parsePackedVarints_ok _ (by simp) (by simp) (by simp) _ _ _ h⟩
 
 /-- one record of a non-oneof field, at the level of its slot -/
-theorem slotFn_shape (S : Schema) (fuel : Nat) (g : Bool) (f : FieldDesc) (hg : f.group = none)
-    (hmr : f.type = .message → f.label = .repeated) (sm : Scanned) (s s' : Slot)
+theorem touched_old (P : Msg → Prop) (g : Bool) (f : FieldDesc) (s : Slot) (hs : s = initSlot' g f ∨ Touched P f s) :
+    ∀ om, s.v = .msg (some om) → P om ∧ om.ty = f.sub := by
+  intro om hv
+  rcases hs with hs | ⟨q, v, hs, hsh, _⟩
+  · rw [hs] at hv; exact absurd hv (initSlot'_not_msg g f om)
+  · rw [hs] at hv
+    simp only [Slot.v] at hv
+    subst hv
+    exact ⟨hsh.2 om rfl, hsh.1.2⟩
+
+theorem slotFn_shape (P : Msg → Prop) (S : Schema) (fuel : Nat) (hN : NestOK P S fuel) (g : Bool) (f : FieldDesc) (hg : f.group = none)
+    (sm : Scanned) (s s' : Slot)
     (h : slotFn S fuel f sm s = some s') :
     (f.label = .repeated →
-      (s = .rep 0 none ∨ ∃ n l, s = .rep n (some l) ∧ 0 < n ∧ l.length = n ∧ ∀ v ∈ l, ShapeElemP (ParsedBy S fuel) f v) →
-      (s' = .rep 0 none ∨ ∃ n l, s' = .rep n (some l) ∧ 0 < n ∧ l.length = n ∧ ∀ v ∈ l, ShapeElemP (ParsedBy S fuel) f v)) ∧
-    (f.label ≠ .repeated → (s = initSlot' g f ∨ Touched (ParsedBy S fuel) f s) → Touched (ParsedBy S fuel) f s') := by
+      (s = .rep 0 none ∨ ∃ n l, s = .rep n (some l) ∧ 0 < n ∧ l.length = n ∧ ∀ v ∈ l, ShapeElemP P f v) →
+      (s' = .rep 0 none ∨ ∃ n l, s' = .rep n (some l) ∧ 0 < n ∧ l.length = n ∧ ∀ v ∈ l, ShapeElemP P f v)) ∧
+    (f.label ≠ .repeated → (s = initSlot' g f ∨ Touched P f s) → Touched P f s') := by
   unfold slotFn at h
   constructor
   · intro hl hs
@@ -269,7 +309,7 @@ theorem slotFn_shape (S : Schema) (fuel : Nat) (g : Bool) (f : FieldDesc) (hg : 
         intro v' hv'
         simp only [mem_singleton] at hv'
         subst hv'
-        exact parseRequired_shape S fuel f sm .zero false _ (Or.inl rfl) hv
+        exact parseRequired_shape P S fuel hN f sm .zero false _ (fun h => by cases h) hv
     · simp only at h
       split at h
       · simp only [Option.map_eq_some_iff] at h
@@ -294,24 +334,24 @@ theorem slotFn_shape (S : Schema) (fuel : Nat) (g : Bool) (f : FieldDesc) (hg : 
         · exact hall v' hv'
         · simp only [mem_singleton] at hv'
           subst hv'
-          exact parseRequired_shape S fuel f sm .zero false _ (Or.inl rfl) hv
+          exact parseRequired_shape P S fuel hN f sm .zero false _ (fun h => by cases h) hv
   · intro hl hs
-    have hnm : f.type ≠ .message := fun hm => hl (hmr hm)
-    have hq := slot_q (ParsedBy S fuel) g f s hl hs
+    have hold := touched_old P g f s hs
+    have hq := slot_q P g f s hl hs
     cases hlab : f.label with
     | repeated => exact absurd hlab hl
     | required =>
       simp only [hlab, Option.map_eq_some_iff] at h
       obtain ⟨v, hv, rfl⟩ := h
       have hh : f.hasQ = false := hasQ_false_of f hg hl (Or.inl (by rw [hlab]; simp))
-      refine ⟨s.q, v, rfl, parseRequired_shape S fuel f sm _ true _ (Or.inr hnm) hv, ?_⟩
+      refine ⟨s.q, v, rfl, parseRequired_shape P S fuel hN f sm _ true _ (fun _ => hold) hv, ?_⟩
       rcases hq with hq | ⟨hq, _⟩
       · simp [hq, hh]
       · rw [hh] at hq; cases hq
     | optional =>
       simp only [hlab, Option.map_eq_some_iff] at h
       obtain ⟨v, hv, rfl⟩ := h
-      refine ⟨_, v, rfl, parseRequired_shape S fuel f sm _ true _ (Or.inr hnm) hv, ?_⟩
+      refine ⟨_, v, rfl, parseRequired_shape P S fuel hN f sm _ true _ (fun _ => hold) hv, ?_⟩
       by_cases hh : f.hasQ = true
       · simp [hh]
       · rcases hq with hq | ⟨hq, _⟩
@@ -320,7 +360,7 @@ theorem slotFn_shape (S : Schema) (fuel : Nat) (g : Bool) (f : FieldDesc) (hg : 
     | none =>
       simp only [hlab, Option.map_eq_some_iff] at h
       obtain ⟨v, hv, rfl⟩ := h
-      refine ⟨_, v, rfl, parseRequired_shape S fuel f sm _ true _ (Or.inr hnm) hv, ?_⟩
+      refine ⟨_, v, rfl, parseRequired_shape P S fuel hN f sm _ true _ (fun _ => hold) hv, ?_⟩
       by_cases hh : f.hasQ = true
       · simp [hh]
       · rcases hq with hq | ⟨hq, _⟩
@@ -333,14 +373,12 @@ theorem getD_mem (fields : List FieldDesc) (i : Nat) (hi : i < fields.length) : 
 theorem setSlot_length (sl : List Slot) (i : Nat) (s : Slot) : (setSlot sl i s).length = sl.length := by simp [setSlot]
 
 /-- one record of a non-oneof field keeps the invariant and marks the field as seen -/
-theorem step_field (S : Schema) (fuel : Nat) (g : Bool) (cs : Nat → Nat) (fields : List FieldDesc) (hnm : NoMerge fields)
-    (seen : Nat → Prop) (slots : List Slot) (hinv : PInv (ParsedBy S fuel) g cs fields seen slots)
+theorem step_field (P : Msg → Prop) (S : Schema) (fuel : Nat) (hN : NestOK P S fuel) (g : Bool) (cs : Nat → Nat) (fields : List FieldDesc)
+    (seen : Nat → Prop) (slots : List Slot) (hinv : PInv P g cs fields seen slots)
     (sm : Scanned) (i : Nat) (hi : i < fields.length) (hgrp : (fields.getD i default).group = none) (s' : Slot)
     (h : slotFn S fuel (fields.getD i default) sm (getSlot slots i) = some s') :
-    PInv (ParsedBy S fuel) g cs fields (fun j => seen j ∨ j = i) (setSlot slots i s') := by
-  have hmr : (fields.getD i default).type = .message → (fields.getD i default).label = .repeated :=
-    fun ht => (hnm.msgRep _ (getD_mem fields i hi) ht).1
-  obtain ⟨hrep, hone⟩ := slotFn_shape S fuel g (fields.getD i default) hgrp hmr sm (getSlot slots i) s' h
+    PInv P g cs fields (fun j => seen j ∨ j = i) (setSlot slots i s') := by
+  obtain ⟨hrep, hone⟩ := slotFn_shape P S fuel hN g (fields.getD i default) hgrp sm (getSlot slots i) s' h
   have hil : i < slots.length := by rw [hinv.len]; exact hi
   refine ⟨by rw [setSlot_length, hinv.len], ?_, ?_, ?_, hinv.sel⟩
   · intro j hj hg hl
@@ -407,61 +445,82 @@ theorem ids_ne (fields : List FieldDesc) (hd : IdsDistinct fields) (i j : Nat) (
 
 def upd (cs : Nat → Nat) (gi c : Nat) : Nat → Nat := fun x => if x = gi then c else cs x
 
-theorem step_oneof (S : Schema) (fuel : Nat) (g : Bool) (cs : Nat → Nat) (fields : List FieldDesc) (hnm : NoMerge fields)
+theorem step_oneof (P : Msg → Prop) (S : Schema) (fuel : Nat) (hN : NestOK P S fuel) (g : Bool) (cs : Nat → Nat) (fields : List FieldDesc)
     (hsch : SchemaOK fields) (seen : Nat → Prop) (slots : List Slot)
-    (hinv : PInv (ParsedBy S fuel) g cs fields seen slots)
+    (hinv : PInv P g cs fields seen slots)
     (sm : Scanned) (i gi : Nat) (hi : i < fields.length) (hgrp : (fields.getD i default).group = some gi)
     (htag : (fields.getD i default).id = sm.tag) (sl' : List Slot)
     (h : groupFn S fuel fields (fields.getD i default) gi sm i slots = some sl') :
-    PInv (ParsedBy S fuel) g (upd cs gi sm.tag) fields seen sl' := by
+    PInv P g (upd cs gi sm.tag) fields seen sl' := by
   have hfm := getD_mem fields i hi
-  have hnmsg : (fields.getD i default).type ≠ .message := by
-    intro ht
-    have := (hnm.msgRep _ hfm ht).2
-    rw [hgrp] at this; cases this
   have hlen := hinv.len
-  obtain ⟨vi, hsi, _⟩ := hinv.grp i gi hi hgrp
+  obtain ⟨vi, hsi, hvi⟩ := hinv.grp i gi hi hgrp
   have hq : (getSlot slots i).q = cs gi := by rw [hsi]; rfl
   unfold groupFn at h
   simp only [hq] at h
-  have hmsgF : ((fields.getD i default).type == PType.message) = false := by simpa using hnmsg
-  simp only [hmsgF, Bool.and_false, Bool.not_false, Bool.and_true] at h
-  -- the slots after the optional clearing: members of the group hold no value, everything else is untouched
+  -- the slots after the optional clearing: the other members of the group hold no value, everything else is untouched,
+  -- and what member i holds is either nothing or a value in parser form
   have key : ∃ sl1, sl1.length = fields.length ∧
       (∀ j, j < fields.length → (fields.getD j default).group = some gi → j ≠ i → sl1.getD j default = .one (cs gi) .zero) ∧
       (∀ j, j < fields.length → (fields.getD j default).group ≠ some gi → sl1.getD j default = slots.getD j default) ∧
+      (∀ om, (getSlot sl1 i).v = .msg (some om) → P om ∧ om.ty = (fields.getD i default).sub) ∧
       ∃ v, (parseRequired S fuel (fields.getD i default) sm (getSlot sl1 i).v true) = some v ∧
         sl' = setCase fields gi sm.tag fields (setSlot sl1 i (.one (cs gi) v)) := by
-    by_cases hc : (cs gi != 0) = true
+    by_cases hc : (cs gi != 0 && !(cs gi == sm.tag && (fields.getD i default).type == PType.message)) = true
     · simp only [hc, if_true] at h
       cases hlk : lookupField fields (cs gi) with
       | none => simp [hlk] at h
       | some j0 =>
         simp only [hlk, Option.map_eq_some_iff] at h
         obtain ⟨v, hv, rfl⟩ := h
-        refine ⟨zeroGroup gi fields slots, by rw [zeroGroup_length, hlen], ?_, ?_, v, hv, rfl⟩
-        · intro j hj hg _
+        have hgz : ∀ j, j < fields.length → (fields.getD j default).group = some gi →
+            (zeroGroup gi fields slots).getD j default = .one (cs gi) .zero := by
+          intro j hj hg
           rw [getD_zeroGroup gi fields slots j hlen.symm (by rw [hlen]; exact hj)]
           obtain ⟨vj, hsj, _⟩ := hinv.grp j gi hj hg
           have : slots.getD j default = .one (cs gi) vj := hsj
           rw [this]
           simp only [hg, beq_self_eq_true, if_true]
+        refine ⟨zeroGroup gi fields slots, by rw [zeroGroup_length, hlen], fun j hj hg _ => hgz j hj hg, ?_, ?_, v, hv, rfl⟩
         · intro j hj hg
           rw [getD_zeroGroup gi fields slots j hlen.symm (by rw [hlen]; exact hj)]
           have : ((fields.getD j default).group == some gi) = false := by simpa using hg
           simp only [this, Bool.false_eq_true, if_false]
+        · intro om hom
+          have : getSlot (zeroGroup gi fields slots) i = .one (cs gi) .zero := hgz i hi hgrp
+          rw [this] at hom
+          cases hom
     · simp only [hc, Bool.false_eq_true, if_false, Option.map_eq_some_iff] at h
       obtain ⟨v, hv, rfl⟩ := h
-      have hc0 : cs gi = 0 := by simpa using hc
-      refine ⟨slots, hlen, ?_, fun _ _ _ => rfl, v, hv, rfl⟩
-      intro j hj hg _
-      obtain ⟨vj, hsj, hvj⟩ := hinv.grp j gi hj hg
-      have hid := (hsch.ids _ (getD_mem fields j hj)).1
-      rw [hc0] at hvj hsj ⊢
-      rw [if_neg (by omega)] at hvj
-      rw [← hvj]; exact hsj
-  obtain ⟨sl1, hl1, hmem, hoth, v, hv, rfl⟩ := key
-  have hshape := parseRequired_shape S fuel (fields.getD i default) sm _ true v (Or.inr hnmsg) hv
+      refine ⟨slots, hlen, ?_, fun _ _ _ => rfl, ?_, v, hv, rfl⟩
+      · intro j hj hg hji
+        obtain ⟨vj, hsj, hvj⟩ := hinv.grp j gi hj hg
+        -- either the group is unset, or member i (≠ j) is the selected one
+        have hne : (fields.getD j default).id ≠ cs gi := by
+          by_cases hc0 : cs gi = 0
+          · have hid := (hsch.ids _ (getD_mem fields j hj)).1
+            omega
+          · have hc0' : (cs gi != 0) = true := by simpa using hc0
+            rw [hc0'] at hc
+            have hct : cs gi = sm.tag := by
+              cases h1 : (cs gi == sm.tag) with
+              | true => simpa using h1
+              | false => simp [h1] at hc
+            rw [hct, ← htag]
+            exact ids_ne fields hsch.distinct j i hj hi hji
+        rw [if_neg hne] at hvj
+        rw [← hvj]; exact hsj
+      · intro om hom
+        rw [hsi] at hom
+        simp only [Slot.v] at hom
+        subst hom
+        by_cases hid : (fields.getD i default).id = cs gi
+        · rw [if_pos hid] at hvi
+          exact ⟨hvi.2 om rfl, hvi.1.2⟩
+        · rw [if_neg hid] at hvi
+          cases hvi
+  obtain ⟨sl1, hl1, hmem, hoth, hold, v, hv, rfl⟩ := key
+  have hshape := parseRequired_shape P S fuel hN (fields.getD i default) sm _ true v (fun _ => hold) hv
   have hl2 : (setSlot sl1 i (.one (cs gi) v)).length = fields.length := by rw [setSlot_length, hl1]
   have hget : ∀ j, j < fields.length →
       getSlot (setCase fields gi sm.tag fields (setSlot sl1 i (.one (cs gi) v))) j =
@@ -530,10 +589,10 @@ theorem unkPref_of_delim (u : Unk) (pref : Nat) (h : Delim u.wt u.data pref) : u
   simp only [append_nil] at this
   simp [unkPref, this]
 
-theorem step_member (S : Schema) (fuel : Nat) (g : Bool) (fields : List FieldDesc) (hnm : NoMerge fields)
-    (hsch : SchemaOK fields) (seen : Nat → Prop) (m m' : Msg) (hinv : MInv (ParsedBy S fuel) g fields seen m)
+theorem step_member (P : Msg → Prop) (S : Schema) (fuel : Nat) (hN : NestOK P S fuel) (g : Bool) (fields : List FieldDesc) (hnm : NoMerge fields)
+    (hsch : SchemaOK fields) (seen : Nat → Prop) (m m' : Msg) (hinv : MInv P g fields seen m)
     (sm : Scanned) (hsm : ScOK fields sm) (h : parseMember S fuel fields sm m = some m') :
-    MInv (ParsedBy S fuel) g fields (fun j => seen j ∨ sm.fidx = some j) m' := by
+    MInv P g fields (fun j => seen j ∨ sm.fidx = some j) m' := by
   obtain ⟨ty, sl, unk⟩ := m
   obtain ⟨⟨cs, hp⟩, hu⟩ := hinv
   cases hf : sm.fidx with
@@ -560,7 +619,7 @@ theorem step_member (S : Schema) (fuel : Nat) (g : Bool) (fields : List FieldDes
       rw [parseMember_field S fuel fields sm i hf hg] at h
       simp only [Option.map_eq_some_iff] at h
       obtain ⟨s', hs', rfl⟩ := h
-      have := step_field S fuel g cs fields hnm seen sl hp sm i hi hg s' hs'
+      have := step_field P S fuel hN g cs fields seen sl hp sm i hi hg s' hs'
       refine ⟨⟨cs, ?_⟩, hu⟩
       refine ⟨this.len, this.rep, fun j hj hgj hl => ⟨(this.one j hj hgj hl).1, fun hs => (this.one j hj hgj hl).2 ?_⟩, this.grp, this.sel⟩
       rcases hs with hs | hs
@@ -571,7 +630,7 @@ theorem step_member (S : Schema) (fuel : Nat) (g : Bool) (fields : List FieldDes
       rw [parseMember_oneof S fuel fields sm i gi hf hg hl] at h
       simp only [Option.map_eq_some_iff] at h
       obtain ⟨sl', hs', rfl⟩ := h
-      have := step_oneof S fuel g cs fields hnm hsch seen sl hp sm i gi hi hg hid sl' hs'
+      have := step_oneof P S fuel hN g cs fields hsch seen sl hp sm i gi hi hg hid sl' hs'
       refine ⟨⟨upd cs gi sm.tag, ?_⟩, hu⟩
       refine ⟨this.len, this.rep, fun j hj hgj hl => ⟨(this.one j hj hgj hl).1, fun hs => (this.one j hj hgj hl).2 ?_⟩, this.grp, this.sel⟩
       rcases hs with hs | hs
@@ -580,11 +639,11 @@ theorem step_member (S : Schema) (fuel : Nat) (g : Bool) (fields : List FieldDes
         subst this
         rw [hg] at hgj; cases hgj
 
-theorem parseAll_inv (S : Schema) (fuel : Nat) (g : Bool) (fields : List FieldDesc) (hnm : NoMerge fields)
+theorem parseAll_inv (P : Msg → Prop) (S : Schema) (fuel : Nat) (hN : NestOK P S fuel) (g : Bool) (fields : List FieldDesc) (hnm : NoMerge fields)
     (hsch : SchemaOK fields) : ∀ (l : List Scanned) (seen : Nat → Prop) (m m' : Msg),
-    MInv (ParsedBy S fuel) g fields seen m → (∀ sm ∈ l, ScOK fields sm) →
+    MInv P g fields seen m → (∀ sm ∈ l, ScOK fields sm) →
     parseAll S fuel fields l m = some m' →
-    MInv (ParsedBy S fuel) g fields (fun j => seen j ∨ ∃ sm ∈ l, sm.fidx = some j) m'
+    MInv P g fields (fun j => seen j ∨ ∃ sm ∈ l, sm.fidx = some j) m'
   | [], seen, m, m', hinv, _, h => by
     simp only [parseAll, Option.some.injEq] at h
     subst h
@@ -599,8 +658,8 @@ theorem parseAll_inv (S : Schema) (fuel : Nat) (g : Bool) (fields : List FieldDe
     | none => simp [hp] at h
     | some m1 =>
       simp only [hp] at h
-      have h1 := step_member S fuel g fields hnm hsch seen m m1 hinv sm (hall sm (mem_cons_self ..)) hp
-      have h2 := parseAll_inv S fuel g fields hnm hsch rest _ m1 m' h1 (fun x hx => hall x (mem_cons_of_mem _ hx)) h
+      have h1 := step_member P S fuel hN g fields hnm hsch seen m m1 hinv sm (hall sm (mem_cons_self ..)) hp
+      have h2 := parseAll_inv P S fuel hN g fields hnm hsch rest _ m1 m' h1 (fun x hx => hall x (mem_cons_of_mem _ hx)) h
       obtain ⟨⟨cs, hq⟩, hu⟩ := h2
       refine ⟨⟨cs, hq.len, hq.rep, fun j hj hg hl => ⟨(hq.one j hj hg hl).1, fun hs => (hq.one j hj hg hl).2 ?_⟩, hq.grp, hq.sel⟩, hu⟩
       rcases hs with hs | ⟨x, hx, hxi⟩
